@@ -20,6 +20,11 @@ named stage of the conversion pipeline.
 Native callables (never converted, must simply be called) include the *namesakes* of the builtins the
 wrapper substitutes by overloads: C functions / bound C methods such as decimal.Context.abs,
 ndarray.any/all, operator.abs, whose __name__ is a substituted builtin's name but which are not it.
+
+User callables include receivers whose type overloads special methods (comparison, truth value, hashing,
+weak-referencability, attribute lookup: OP_PROFILES x OP_FORMS): the wrapper has to classify them by
+identity and type only, so `==` that builds expressions / raises / has no truth value, falsy receivers
+and uncacheable receivers must neither change the decision nor the call.
 """
 import atexit
 import contextlib
@@ -56,7 +61,9 @@ RULE = ('one evaluation = one case executed in both worlds (up to 3 calls each).
         'run as generated code, or when an injected fault actually fired inside a conversion; distinct by '
         '(kind, module class, route, call site, args, kwargs, options, context, strict, history, fault stage/nth/exception). '
         'The enumerated part covers every (convertible kind x pipeline stage) pair: all of them at thorough, a seed-rotated '
-        'third at quick.')
+        'third at quick (receivers with overloaded special methods take part with their callable-object and metaclass forms, '
+        'a seed-rotated fifth at quick; all their forms are in the fault-free decision table and have a slice of the random '
+        'draws: classes receiver_*).')
 ASSUMPTIONS = [
     'observable behaviour = result (iterators materialised), exception type, ordered log of library tracer calls with the bound '
     'parameter values, captured stdout, post-state of mutable arguments, post-state of the callable (partial args/keywords, instance dict, function attributes)',
@@ -67,6 +74,12 @@ ASSUMPTIONS = [
     'only Exception subclasses are injected (BaseException is outside "fails for any reason" as implemented by try/except Exception)',
     'each case starts from empty conversion and allow-list caches (test-side reset) unless the case itself asks for a warm cache',
     'context builtins eval/super/locals/globals are C14 matters and are not routed here; partial subclasses overriding __call__ are outside the quantifier',
+    'callables whose type overloads special methods (==/!= answering with expression nodes, truth-less element-wise results, True for everything or '
+    'raising for foreign operands; __bool__/__len__ making the object falsy or truth-less; __hash__ None / raising TypeError / constant / by value; '
+    '__slots__ without __weakref__; a delegating __getattr__) are ordinary user callables for the policy and are generated as callable objects, '
+    'partials of them, their bound methods and classes with such a callable metaclass. They keep to the data-model conventions the wrapper may rely '
+    'on: __hash__ returns an int or raises TypeError, __getattr__ raises AttributeError for unknown names and never fabricates underscore-suffixed '
+    'names such as autograph_info__ (catch-all mock-like objects are outside the domain), __call__ is looked up on the type',
 ]
 LEVEL_TEXT = ('Fault enumeration: every (convertible callable kind x conversion-pipeline stage) pair receives an injected failure '
               '(all pairs at thorough, a seed-rotated third at quick), on top of randomised exploration of the remaining dimensions; '
@@ -419,6 +432,136 @@ def tagged(p):
   return p
 
 
+# --- receivers with overloaded special methods --------------------------------------------------------------------
+# Callable objects (and classes, through their metaclass) whose type overloads comparison, hashing, truth testing,
+# attribute lookup or weak-referencability the way symbolic / tracer / ORM-column / array / container / proxy types do.
+# All of them keep to the data-model conventions (see ASSUMPTIONS); the call itself is ordinary.
+
+
+class EqExpr(object):
+  """expression node `lhs == rhs` built instead of a bool (truthy, like any plain object)"""
+
+  def __init__(self, op, lhs, rhs):
+    self.op, self.lhs, self.rhs = op, lhs, rhs
+
+
+class Ambiguous(object):
+  """element-wise comparison result: its truth value is an error (numpy style)"""
+
+  def __bool__(self):
+    raise ValueError('the truth value of an element-wise result is ambiguous')
+
+
+def _op_same(a, b):
+  return type(a) is type(b) and a.base == b.base
+
+
+def _op_eq_raises(self, other):
+  if type(other) is not type(self):
+    raise TypeError('cannot compare %s with %s' % (type(self).__name__, type(other).__name__))
+  return self.base == other.base
+
+
+def _op_ne_raises(self, other):
+  return not _op_eq_raises(self, other)
+
+
+def _op_raise(exc_type, msg):
+  def raiser(self, *a):
+    raise exc_type(msg)
+  return raiser
+
+
+def _op_getattr(self, name):
+  # delegating proxy: unknown public names are looked up on the wrapped value, everything else is an AttributeError
+  if name.startswith('_') or name.endswith('_') or 'base' not in self.__dict__:
+    raise AttributeError(name)
+  return getattr(self.__dict__['base'], name)
+
+
+_IDHASH = object.__hash__
+OP_PROFILES = {
+    # comparison
+    'eq_expr': {'__eq__': lambda s, o: EqExpr('==', s, o), '__ne__': lambda s, o: EqExpr('!=', s, o), '__hash__': _IDHASH},
+    'eq_raises': {'__eq__': _op_eq_raises, '__ne__': _op_ne_raises, '__hash__': lambda s: hash(s.base)},
+    'eq_always_true': {'__eq__': lambda s, o: True, '__ne__': lambda s, o: False, '__hash__': _IDHASH},
+    'eq_ambiguous': {'__eq__': lambda s, o: Ambiguous(), '__ne__': lambda s, o: Ambiguous(), '__hash__': _IDHASH},
+    'eq_notimplemented': {'__eq__': lambda s, o: NotImplemented, '__hash__': _IDHASH},                       # control
+    'eq_value': {'__eq__': _op_same, '__hash__': lambda s: hash(s.base)},                                   # control
+    'eq_only_unhashable': {'__eq__': _op_same},                              # defining __eq__ alone sets __hash__ = None
+    # truth testing
+    'falsy_bool': {'__bool__': lambda s: False},
+    'falsy_len': {'__len__': lambda s: 0},
+    'bool_raises': {'__bool__': _op_raise(ValueError, 'the truth value of this object is ambiguous')},
+    'arraylike': {'__eq__': lambda s, o: Ambiguous(), '__ne__': lambda s, o: Ambiguous(), '__len__': lambda s: 3,
+                  '__bool__': _op_raise(ValueError, 'the truth value of an array is ambiguous')},           # unhashable
+    # hashing / weak references / attribute lookup
+    'hash_raises_typeerror': {'__hash__': _op_raise(TypeError, 'unhashable type')},
+    'hash_constant': {'__hash__': lambda s: 0},
+    'slots_noweakref': {'__slots__': ('base', 'calls')},
+    'getattr_proxy': {'__getattr__': _op_getattr},
+    'plain': {},                                                                                            # control
+}
+
+
+def make_opclass(profile):
+  def __init__(self, base=7):
+    self.base = base
+    self.calls = 0
+
+  def __call__(self, x, y=10, *rest, z=3, **kw):
+    _c('opcall')
+    self.calls += 1
+    if x > 0:
+      r = x + y + self.base
+    else:
+      r = y - x
+    _t('opcall', x, y, rest, z, sorted(kw.items()))
+    return (r, z, len(rest))
+
+  def m(self, x, y=10, *rest, z=3, **kw):
+    _c('opm')
+    self.calls += 1
+    if x > 0:
+      r = x + y + self.base
+    else:
+      r = y - x
+    _t('opm', x, y, rest, z, sorted(kw.items()))
+    return (r, z, len(rest))
+
+  ns = {'__init__': __init__, '__call__': __call__, 'm': m, '__module__': __name__, '__qualname__': 'Op_' + profile}
+  ns.update(OP_PROFILES[profile])
+  return type('Op_' + profile, (object,), ns)
+
+
+class MetaEqExpr(Meta):
+  def __eq__(cls, other):
+    return EqExpr('==', cls, other)
+
+  def __ne__(cls, other):
+    return EqExpr('!=', cls, other)
+
+  __hash__ = type.__hash__
+
+
+class MetaEqRaises(Meta):
+  def __eq__(cls, other):
+    if not isinstance(other, MetaEqRaises):
+      raise TypeError('cannot compare %s with %s' % (cls.__name__, type(other).__name__))
+    return cls is other
+
+  __hash__ = type.__hash__
+
+
+def make_metaop_class(meta):
+  class WithMetaOp(metaclass=meta):
+    def __init__(self, r, z):
+      _c('metainit')
+      self.r = r
+      self.z = z
+  return WithMetaOp
+
+
 # native call-site shapes (converted as callers for the "nested" route)
 def call_pos2(f, a, b):
   return f(a, b)
@@ -504,6 +647,8 @@ def get_lib(template):
     if name in sys.modules:
       raise RuntimeError('refusing to shadow loaded module %s' % name)
     m = harness.load_module(LIB_SRC, name=name)
+    if set(m.OP_PROFILES) != set(OP_PROFILES):
+      raise RuntimeError('special-method profiles of the library and of the check differ')
     atexit.register(harness.unload_module, m)   # replays run in the parent, outside the per-run TMPDIR
     _LIBS[template] = m
   return m
@@ -580,11 +725,63 @@ KINDS.update({
     'partial_builtin_print': _k("functools.partial(print, 'p', sep='-')", 'never', sig='b:print'),
 })
 
+# Receivers whose type overloads special methods (the library's OP_PROFILES): comparison that does not answer with a bool
+# (expression node, element-wise result with an ambiguous truth value), that raises for foreign operands or that is true for
+# everything; falsy / truth-less objects; unhashable, constant-hash and non-weak-referencable objects; delegating proxies.
+# The wrapper has to classify such a callable by identity and type only: it is an ordinary user callable (policy class
+# 'user') in each of the forms below, and is called exactly like natively.
+OP_PROFILES = ('eq_expr', 'eq_raises', 'eq_always_true', 'eq_ambiguous', 'eq_notimplemented', 'eq_value', 'eq_only_unhashable',
+               'falsy_bool', 'falsy_len', 'bool_raises', 'arraylike', 'hash_raises_typeerror', 'hash_constant', 'slots_noweakref',
+               'getattr_proxy', 'plain')
+OP_CONTROLS = ('eq_notimplemented', 'eq_value', 'plain')
+# profiles for which `receiver == anything` is not a plain False (what an equality-based membership test trips over)
+OP_EQ_NONSTANDARD = ('eq_expr', 'eq_raises', 'eq_always_true', 'eq_ambiguous', 'arraylike')
+OP_TRUTH_NONSTANDARD = ('falsy_bool', 'falsy_len', 'bool_raises', 'arraylike')
+# the allow-list cache cannot hold them (unhashable or no weak references): cache_allowlisted documents the catch-all
+OP_UNCACHEABLE = ('eq_only_unhashable', 'arraylike', 'hash_raises_typeerror', 'slots_noweakref', 'eq_ambiguous')   # eq_ambiguous: the cache lookup compares the weak key through ==, whose result has no truth value (catch-all since FC13b)
+OP_FORMS = ('object', 'partial', 'bound_method')
+OP_KINDS = []
+for _p in OP_PROFILES:
+  _unc = {'uncacheable': True} if _p in OP_UNCACHEABLE else {}
+  KINDS['opobj:' + _p] = _k("OP(%r)(7)" % _p, 'user', '__call__', 'opcall', extra=dict(_unc, profile=_p, form='object'))
+  KINDS['partial_opobj:' + _p] = _k("functools.partial(OP(%r)(7), 1, z=5)" % _p, 'user', '__call__', 'opcall', sig='p1',
+                                    extra=dict(_unc, profile=_p, form='partial'))
+  # the allow-list cache is keyed by the function behind a bound method, so these are all cacheable
+  KINDS['opmethod:' + _p] = _k("OP(%r)(7).m" % _p, 'user', 'm', 'opm', extra=dict(profile=_p, form='bound_method'))
+  OP_KINDS += ['opobj:' + _p, 'partial_opobj:' + _p, 'opmethod:' + _p]
+# classes called through a callable metaclass that also overloads the comparison of the class objects themselves
+KINDS['class_callable_metaclass_eq_expr'] = _k("make_metaop_class(MetaEqExpr)", 'user', '__call__', 'metacall',
+                                               extra=dict(profile='eq_expr', form='metaclass'))
+KINDS['class_callable_metaclass_eq_raises'] = _k("make_metaop_class(MetaEqRaises)", 'user', '__call__', 'metacall',
+                                                 extra=dict(profile='eq_raises', form='metaclass'))
+OP_KINDS += ['class_callable_metaclass_eq_expr', 'class_callable_metaclass_eq_raises']
+
 # genuine defects found by this check are excluded from generation behind a named flag (the redirected draws are counted
 # as excluded:<flag>) while their committed replay keeps exercising the exact shape.  Finding FC13a/b (__call__ declared
 # as staticmethod / classmethod received the instance as an extra first argument) was fixed in /repo, so its two kinds
 # are generated again and replays/C13/FC13*.json are ordinary regression replays.
 EXCLUDED_KINDS = {}
+
+# Named exclusions of exact shapes (suspected genuine defects reported by the extension that added the special-method
+# receivers; the redirected cases are counted as excluded:<flag>).
+#   eq_ambiguous_receiver_cached: a *hashable* callable object whose `==` answers with an object that has no truth value
+#   (element-wise comparison, identity hash: torch.Tensor style), once the wrapper has entered it in the allow-list cache
+#   (it ran unconverted: allow-listed module, non-recursive mode, or a conversion failure).  Every later
+#   conversion.is_in_allowlist_cache(f, ...) compares the weak key with itself through `==` and the ValueError of the truth
+#   test escapes from converted_call (only TypeError is caught there).  The cases are redirected to the unhashable twin of the
+#   profile ('arraylike'), which never enters the cache; the same receiver in cases that do not cache it stays generated.
+EXCL = {'eq_ambiguous_receiver_cached': False}   # FC13b repaired in /repo: the shape is generated again
+
+
+def redirect_excluded(case):
+  """Applies the named shape exclusions; returns the case (possibly redirected, with case['excluded'] set)."""
+  ex = KINDS[case['kind']]['extra']
+  if EXCL['eq_ambiguous_receiver_cached'] and ex.get('profile') == 'eq_ambiguous' and ex.get('form') in ('object', 'partial'):
+    _, ureq, internal = effective_options(case)
+    converted = internal and (ureq or not model_module_allowlisted(real_modname(case['mod'])))
+    if case['ctx'] != 'DISABLED' and (case.get('fault') is not None or not converted):
+      return dict(case, kind=case['kind'].replace(':eq_ambiguous', ':arraylike'), excluded='eq_ambiguous_receiver_cached')
+  return case
 
 # builtins, their overloads, C functions, functions of allow-listed modules: never converted
 # NATIVE[name] = (expression building the callable, [(args source, kwargs source), ...])
@@ -918,6 +1115,9 @@ def _instance_state(o):
   d = getattr(o, '__dict__', None)
   if isinstance(d, dict):
     return [[k, _normalise(v)] for k, v in sorted(d.items()) if not k.startswith('_')]
+  slots = getattr(type(o), '__slots__', None)
+  if isinstance(slots, tuple) and not isinstance(o, (list, tuple, dict, str, int)):
+    return [[k, _normalise(getattr(o, k, '<unset>'))] for k in sorted(slots) if not k.startswith('_')]
   return _normalise(o) if isinstance(o, (list, tuple, dict, str, int)) else 'obj:' + type(o).__name__
 
 
@@ -928,7 +1128,7 @@ def _env(lib):
   env.update(_ARG_ENV)
   env.update(K=K, functools=functools, math=math, operator=operator, itertools=it, re=re, copy=copy,
              collections=collections, inspect=inspect, posixpath=posixpath, urllib=urllib, LST=[1, 2],
-             neg=lib.__dict__.setdefault('_vf_neg', _make_neg()), _to_graph=api.to_graph, _api=api)
+             neg=lib.__dict__.setdefault('_vf_neg', _make_neg()), _to_graph=api.to_graph, _api=api, OP=lib.make_opclass)
   return env
 
 
@@ -1183,7 +1383,7 @@ def model(case, libname):
       conv['helper'] = hc
       if hc:
         attempt.add('helper')
-    if case['kind'] == 'class_callable_metaclass':
+    if case['kind'].startswith('class_callable_metaclass'):
       conv['metainit'] = False
   elif cls == 'never':
     if tag:
@@ -1345,7 +1545,9 @@ def run_case(case):
   if fired and strict_on:
     # strict mode: the conversion failure must escape as the injected exception
     e = main['exc_obj']
-    escaped = e is fired_exc
+    # ... or as the pipeline's documented translation of it (parser.parse_entity turns an OSError of the source lookup into
+    # InaccessibleSourceCodeError, raised while the original is being handled: the injected fault is then in the context chain)
+    escaped = _in_exc_chain(e, fired_exc)
     if not escaped and e is not None and case['via'] in ('decorator', 'nested'):
       # the public decorator re-raises errors that crossed converted code with a rewritten message (a C12 matter)
       escaped = 'vf-injected fault' in str(e)
@@ -1488,6 +1690,16 @@ def run_case(case):
   return fails, info
 
 
+def _in_exc_chain(e, target):
+  seen = 0
+  while e is not None and seen < 20:
+    if e is target:
+      return True
+    e = e.__cause__ if e.__cause__ is not None else e.__context__
+    seen += 1
+  return False
+
+
 def _policy_pre(got, names, fails, kd):
   """A call made under a DISABLED context converts nothing (an already converted artifact stays what it is)."""
   if names[0] == 'pre' and kd['cls'] != 'artifact_converted':
@@ -1523,6 +1735,11 @@ _OPTS = st.fixed_dictionaries({
 _KIND_NAMES = sorted(KINDS)
 _ENUM_KINDS = [k for k in _KIND_NAMES if k not in EXCLUDED_KINDS]
 _USER_KINDS = sorted(CONVERTIBLE)
+# the receivers with overloaded special methods have a slice of the random draws of their own (profile x form); their
+# callable-object form takes part in the (kind x stage) fault table, every form in the fault-free decision table
+_USER_KINDS_RANDOM = [k for k in _USER_KINDS if k not in OP_KINDS]
+_FAULT_TABLE_KINDS = [k for k in _USER_KINDS if k not in OP_KINDS or KINDS[k]['extra'].get('form') in ('object', 'metaclass')]
+_OP_METACLASS_KINDS = [k for k in OP_KINDS if KINDS[k]['extra']['form'] == 'metaclass']
 _NATIVE_KINDS = sorted(k for k in KINDS if k.startswith('native:'))
 _NAMESAKE_KINDS = sorted('native:' + n for n in NAMESAKE)
 _SPECIAL_KINDS = sorted(k for k in KINDS if k not in CONVERTIBLE and not k.startswith('native:'))
@@ -1532,8 +1749,17 @@ _SPECIAL_KINDS = sorted(k for k in KINDS if k not in CONVERTIBLE and not k.start
 def cases(draw):
   # half of the draws go to kinds whose conversion is decided by the policy, the rest over everything
   # (the native namesakes of substituted builtins get a slice of their own on top of their share of the native slice)
-  g = draw(st.integers(0, 21))
-  kind = draw(st.sampled_from(_USER_KINDS if g < 8 else _SPECIAL_KINDS if g < 15 else _NATIVE_KINDS if g < 20 else _NAMESAKE_KINDS))
+  g = draw(st.integers(0, 24))
+  if g >= 22:
+    # receiver with overloaded special methods: profile x form (the two metaclass kinds share one slot of the form draw)
+    form = draw(st.sampled_from(['object', 'object', 'object', 'partial', 'partial', 'bound_method', 'metaclass']))
+    if form == 'metaclass':
+      kind = draw(st.sampled_from(_OP_METACLASS_KINDS))
+    else:
+      profile = draw(st.sampled_from(OP_PROFILES))
+      kind = {'object': 'opobj:', 'partial': 'partial_opobj:', 'bound_method': 'opmethod:'}[form] + profile
+  else:
+    kind = draw(st.sampled_from(_USER_KINDS_RANDOM if g < 8 else _SPECIAL_KINDS if g < 15 else _NATIVE_KINDS if g < 20 else _NAMESAKE_KINDS))
   excluded = None
   if kind in EXCLUDED_KINDS:
     excluded, kind = EXCLUDED_KINDS[kind]
@@ -1563,15 +1789,16 @@ def cases(draw):
       opts = dict(opts, features=[feat])
     if pre == 'warm':
       pre = 'none'   # a warm conversion cache means the pipeline is never entered
-  return {'kind': kind, 'mod': mod, 'modclass': mclass, 'via': via, 'callsite': callsite, 'args': args, 'kwargs': kwargs,
-          'opts': opts, 'ctx': ctx, 'strict': strict, 'pre': pre, 'fault': fault, 'excluded': excluded}
+  return redirect_excluded({'kind': kind, 'mod': mod, 'modclass': mclass, 'via': via, 'callsite': callsite, 'args': args,
+                            'kwargs': kwargs, 'opts': opts, 'ctx': ctx, 'strict': strict, 'pre': pre, 'fault': fault,
+                            'excluded': excluded})
 
 
 def enumerated(tier, seed):
   """(convertible kind x stage) table, every pair with the default options; strict on alternate rows."""
   out = []
   i = 0
-  for kind in _USER_KINDS:
+  for kind in _FAULT_TABLE_KINDS:
     if kind in EXCLUDED_KINDS:
       continue
     kd = KINDS[kind]
@@ -1579,7 +1806,9 @@ def enumerated(tier, seed):
     for stage in sorted(STAGES):
       for strict in (None, '1'):
         i += 1
-        if tier != 'thorough' and (i + seed) % 3 != 0:
+        # quick: a seed-rotated third of the table (a fifth for the special-method receivers, whose extra dimension is the
+        # receiver, not the stage)
+        if tier != 'thorough' and (i + seed) % (5 if kind in OP_KINDS else 3) != 0:
           continue
         feats = [STAGE_FEATURE[stage]] if stage in STAGE_FEATURE else None
         out.append({'kind': kind, 'mod': 'vfc13lib', 'modclass': 'plain', 'via': 'direct', 'callsite': None, 'args': a, 'kwargs': k,
@@ -1596,6 +1825,9 @@ def policy_table(tier, seed):
   mods = [('plain', 'vfc13lib'), ('submodule', 'numpy.vfsub'), ('prefixlike', 'reporting'), ('convert_rule', MODNAMES['convert_rule'][0])]
   if tier == 'thorough':
     mods = [(c, n) for c in sorted(MODNAMES) for n in (MODNAMES[c] if c in ('exact', 'convert_rule') else MODNAMES[c][:3])]
+  op_mods = mods[:2]
+  if tier == 'thorough':
+    op_mods = [(c, MODNAMES[c][0]) for c in sorted(MODNAMES)]
   flags = [(True, u, True) for u in (False, True)]
   ctxs = ['none']
   if tier == 'thorough':
@@ -1605,7 +1837,9 @@ def policy_table(tier, seed):
   for kind in _ENUM_KINDS:
     kd = KINDS[kind]
     native = kind.startswith('native:')
-    for mclass, mod in (mods[:1] if native else mods):
+    # module-name matching is orthogonal to the receiver's special methods: quick crosses those receivers with an ordinary and
+    # an allow-listed defining module only, thorough with one module name of every class
+    for mclass, mod in (mods[:1] if native else op_mods if kind in OP_KINDS else mods):
       for r, u, n in flags:
         for ctx in ctxs:
           i += 1
@@ -1641,6 +1875,28 @@ def _classes(case, info):
     cl.append('native_namesake:control' if ns in NAMESAKE_CONTROLS else 'native_namesake')
     if ns not in NAMESAKE_CONTROLS and case['ctx'] != 'DISABLED':
       cl.append('native_namesake:reaches_overload_lookup')
+  ex = KINDS[case['kind']]['extra']
+  if ex.get('profile'):
+    prof = ex['profile']
+    cl += ['receiver_special_methods', 'receiver_profile=' + prof, 'receiver_form=' + ex['form'],
+           'receiver_profile_x_form=%s/%s' % (prof, ex['form'])]
+    if prof in OP_CONTROLS:
+      cl.append('receiver_special_methods:control')
+    # the call reaches the wrapper's classification of the receiver itself (identity / type tests on the object): not when the
+    # context is disabled, and a bound method is classified through its function
+    classified = case['ctx'] != 'DISABLED' and ex['form'] != 'bound_method'
+    if prof in OP_EQ_NONSTANDARD:
+      cl.append('receiver_eq_nonstandard')
+      if classified:
+        cl.append('receiver_eq_nonstandard:classified_by_wrapper')
+        if 'target_ran_converted' in info['classes']:
+          cl.append('receiver_eq_nonstandard:ran_converted')
+    if prof in OP_TRUTH_NONSTANDARD:
+      cl.append('receiver_truth_nonstandard')
+      if case['ctx'] != 'DISABLED' and 'target_ran_converted' in info['classes']:
+        cl.append('receiver_truth_nonstandard:ran_converted')
+    if prof in OP_UNCACHEABLE and ex['form'] != 'bound_method':
+      cl.append('receiver_uncacheable')
   if case.get('excluded'):
     cl.append('excluded:' + case['excluded'])
   if f:
@@ -1680,11 +1936,11 @@ def shard(ctx, acc):
   en = enumerated(ctx.tier, ctx.seed)
   for i, case in enumerate(en):
     if i % ctx.nshards == ctx.shard:
-      _do(case, acc, 'enumerated')
+      _do(redirect_excluded(case), acc, 'enumerated')
   pt = policy_table(ctx.tier, ctx.seed)
   for i, case in enumerate(pt):
     if i % ctx.nshards == ctx.shard:
-      _do(case, acc, 'policy_table')
+      _do(redirect_excluded(case), acc, 'policy_table')
   n = ctx.share('cases')
 
   def body(case):
@@ -1716,6 +1972,8 @@ def shrink(case, bucket, deadline):
 
   def still(c):
     try:
+      if redirect_excluded(c) is not c:
+        return False   # do not drift into an excluded shape
       return any(f['bucket'] == bucket for f in replay(c))
     except Exception:
       return False
